@@ -204,6 +204,9 @@ def run_cli_impl(argv, toml_path):
     captured = []
     orig = M.run
     M.run = lambda config: captured.append(config) or 0
+    cwd = os.getcwd()
+    os.chdir(toml_path.parent)      # relative file: paths are relative to the scratch directory
+    sys.path.insert(0, str(toml_path.parent))
     try:
         with warnings.catch_warnings():
             warnings.simplefilter("ignore")
@@ -213,8 +216,12 @@ def run_cli_impl(argv, toml_path):
                     M.main(argv)
                 except SystemExit:
                     return None, M.sentinel
+                except Exception as e:  # noqa: BLE001
+                    return e, M.sentinel
     finally:
         M.run = orig
+        os.chdir(cwd)
+        sys.path.remove(str(toml_path.parent))
     return captured[0], M.sentinel
 
 
@@ -239,7 +246,19 @@ def cli_cases(ctx, n, tmp):
         app = rng.choice(["module:app", "pkg.mod:create()", "asgi:m:a", "x"])
         toml_path = tmp / f"cli_{idx}.toml"
         toml_path.write_text(toml_dump(base))
-        argv = ["-c", str(toml_path)]
+        # the three forms of -c: a TOML path, file:<python file>, python:<module>; the names start with letters of the prefix
+        # itself (a relative path 'elf/file_N.py', a module 'python_conf_N'), as a user's may
+        src = rng.choice(["toml", "toml", "file", "python"])
+        cfg_arg = str(toml_path)
+        if src == "file":
+            (tmp / "elf").mkdir(exist_ok=True)
+            (tmp / "elf" / f"file_{idx}.py").write_text(py_dump(base))
+            cfg_arg = f"file:elf/file_{idx}.py"
+        elif src == "python":
+            mod = f"python_conf_{os.getpid()}_{idx}"
+            (tmp / f"{mod}.py").write_text(py_dump(base))
+            cfg_arg = "python:" + mod
+        argv = ["-c", cfg_arg]
         for f, v in occs:
             argv.append(f)
             if v is not None:
@@ -247,7 +266,7 @@ def cli_cases(ctx, n, tmp):
         # keep option values that look like options out (argparse would re-interpret them)
         if any(v is not None and v.startswith("-") and not re.fullmatch(r"-\d+", v) for _, v in occs):
             occs = [(f, ("v" + v if v is not None and v.startswith("-") and not re.fullmatch(r"-\d+", v) else v)) for f, v in occs]
-            argv = ["-c", str(toml_path)]
+            argv = ["-c", cfg_arg]
             for f, v in occs:
                 argv.append(f)
                 if v is not None:
@@ -255,13 +274,19 @@ def cli_cases(ctx, n, tmp):
         argv.append(app)
         keys = sorted({PRIVATE.get(k, k) for k in BASE_SETTINGS} | {"application_path", "verify_mode", "cert_reqs"})
         config, sentinel = run_cli_impl(argv, toml_path)
+        crash = None
+        if isinstance(config, Exception):
+            crash, config = config, None
         obs = ["exit"] if config is None else config_obs(config, keys, sentinel)
         occ_terms = C.clist([f"({C.cstr(f)}, {C.copt(v, C.cstr) if v is None or C.is_ident(v) else 'None'})" for f, v in occs], "occ")
         nonascii = any(v is not None and not C.is_ident(v) for _, v in occs)
         inp = C.ctuple("0%N", C.cstr(app), occ_terms, assoc_term(base), C.clist([C.cstr(k) for k in keys], "string"))
-        case = {"kind": "cli", "argv": argv[2:], "base": base, "obs": obs}
+        case = {"kind": "cli", "config_source": src, "argv": argv[2:], "base": base, "obs": obs}
         # ---- implementation-side oracle (docs table), independent of the model
         fails = []
+        if crash is not None:
+            fails.append({"case": case, "what": f"the command line {argv} with a loadable configuration raised {crash!r}",
+                          "signature": "cli:crash:" + src})
         if config is not None:
             base_cfg = Config.from_toml(toml_path)
             given = {}
